@@ -28,9 +28,9 @@ CCase(ni, nx, k) ==
   [kind |-> "C", item |-> w, result |-> Results[((k + nx) % Len(Results)) + 1], u |-> Gases[((k + ni + nx) % Len(Gases)) + 1],
    want_y |-> B2b(Lit(w.payload))]
 Top == 16
-CCases == {CCase(ni, nx, k) : ni \in 0..3, nx \in 0..3, k \in 0..(IF Thorough THEN 8 ELSE 2)}
-          \cup {CCase(ni, nx, ni + 2 * nx) : ni \in 0..Top, nx \in (IF Thorough THEN 0..Top ELSE {0, 1, 2, 5, 15, 16})}
-          \cup {CCase(ni, (ni * 5 + 3) % 17, k) : ni \in 0..Top, k \in 20..(IF Thorough THEN 40 ELSE 22)}
+CCases == {CCase(ni, nx, k) : ni \in 0..3, nx \in 0..3, k \in 0..(IF Thorough THEN 17 ELSE 2)}
+          \cup {CCase(ni, nx, ni + 2 * nx + 90 * j) : ni \in 0..Top, nx \in (IF Thorough THEN 0..Top ELSE {0, 1, 2, 5, 15, 16}), j \in 0..(IF Thorough THEN 5 ELSE 0)}
+          \cup {CCase(ni, (ni * 5 + 3) % 17, k) : ni \in 0..Top, k \in 20..(IF Thorough THEN 109 ELSE 22)}
 
 ExportCounts == IF Thorough THEN (0..9) \cup {31, 32, 33, 63, 64, 65, 127, 128, 129, 130}
                 ELSE {0, 1, 2, 3, 4, 5, 8, 9, 64, 65}
@@ -39,7 +39,7 @@ ACase(n, k) ==
   LET segs == [i \in 1..n |-> IF (i + k) % 4 = 0 THEN ZeroSegment ELSE Segment(<<i % 256, k, 77>>)] IN
   [kind |-> "A", h |-> Byte32(100 + n + k), blen |-> BundleLens[((n + k) % Len(BundleLens)) + 1], bfill |-> (n * 3 + k) % 256,
    segs |-> segs, want_root |-> M(segs, "b2b")]
-ACases == {ACase(n, k) : n \in ExportCounts, k \in 0..(IF Thorough THEN 3 ELSE 1)}
+ACases == {ACase(n, k) : n \in ExportCounts, k \in 0..(IF Thorough THEN 7 ELSE 1)}
 
 \* ---- Xi: whole report computation with a scripted refinement (the driver's executor replays `outs`)
 SmallE == <<0, 1, 2, 3, 5>>
@@ -58,7 +58,7 @@ XiCase(n, k) ==
   IN [kind |-> "Xi", items |-> ws, classes |-> cl, outs |-> outs, h |-> Byte32(200 + n + k), blen |-> BundleLens[((n + k) % Len(BundleLens)) + 1],
       bfill |-> k, core |-> k % 2, authgas |-> Gases[(k % Len(Gases)) + 1], authout |-> <<k, 1>>,
       want_ys |-> [jj \in 1..n |-> B2b(Lit(ws[jj].payload))], want_root |-> M(all, "b2b"), nsegs |-> Len(all), offsets |-> ExportOffsets(ws)]
-XiCases == {XiCase(n, k) : n \in 1..(IF Thorough THEN 6 ELSE 4), k \in 0..(IF Thorough THEN 11 ELSE 3)}
+XiCases == {XiCase(n, k) : n \in 1..(IF Thorough THEN 8 ELSE 4), k \in 0..(IF Thorough THEN 39 ELSE 3)}
 
 Cases == SetToSeq(CCases) \o SetToSeq(ACases) \o SetToSeq(XiCases)
 ASSUME ndJsonSerialize(OutFile, Cases)
